@@ -156,6 +156,7 @@ def _path(ctx, params):
     prob = Problem(ctx, W, n, params.get("pattern", ("ff",) * n))
     run = Run(prob)
     run.jac_buffer = bool(params.get("jac_buffer"))
+    run.mutate_args = bool(params.get("mutate_args"))
     cfg, sym = build_cfg(ctx, W, prob, params, run)
     ck_info = None
     if params.get("checkpoint"):
